@@ -16,6 +16,9 @@ def apply_outcome(sp, i, oc):
         s["exit"] = 1
     elif oc == "missing":
         s["deps"].append(["file", "absent_%d.txt" % i])
+    elif oc == "thorerr":
+        # passes the superficial check, fails in the thorough comparison (finding P14b)
+        s["deps"].append(rng_free_choice(i))
     elif oc == "bigout":
         s["out"] = 70000
     elif oc == "err1k":
@@ -26,16 +29,24 @@ def apply_outcome(sp, i, oc):
         s["garble"] = True
 
 
+def rng_free_choice(i):
+    return [["lines", "absent_%d.txt::1-5" % i], ["regex", "absent_%d.txt:/a.*" % i]][i % 2]
+
+
 def cases(chk, env):
     rng, tier = chk.rng, chk.tier
     out = list(S.load_corpus("C11"))
+    # thorough comparison errors in every position: only on a tree that has the repair of P14b (probe);
+    # without it the class is an open finding whose witnesses are in the corpus
+    outcomes = OUTCOMES + (["thorerr"] if env.p14b_fixed else [])
+    joinable = ["ok", "fail", "missing"] + (["thorerr"] if env.p14b_fixed else [])
     nmax = 3 if tier == "quick" else 4
     for n in range(1, nmax + 1):
         dags = S.all_dags(n)
         if n == 4:
             dags = rng.sample(dags, 150)
         for es in dags:
-            allocs = list(itertools.product(OUTCOMES, repeat=n))
+            allocs = list(itertools.product(outcomes, repeat=n))
             for ocs in (allocs if n == 1 else rng.sample(allocs, 5 if tier == "quick" else 16)):
                 sp = S.explicit_spec(n, es, [0] * n, ["D"] * n, rng.choice([1, 2]), [rng.choice([0, 30]) for _ in range(n)],
                                      rng.randrange(1, 1 << 30), "dag%d" % n)
@@ -46,7 +57,7 @@ def cases(chk, env):
                 out.append(sp)
     # a step with several dependencies of which some fail, some succeed, some cannot be checked
     for k in (2, 3):
-        for ocs in itertools.product(["ok", "fail", "missing"], repeat=k):
+        for ocs in (itertools.product(joinable, repeat=k) if k == 2 else itertools.product(["ok", "fail", "missing"], repeat=k)):
             for w in ("D", "A"):
                 steps = [S.step("d%d" % i, dur=rng.choice([0, 40])) for i in range(k)]
                 steps.append(S.step("join", when=w, deps=[("step", "d%d" % i) for i in range(k)]))
@@ -60,7 +71,7 @@ def cases(chk, env):
         k = rng.randint(3, 5)
         sp = S.mkspec([S.step("s%d" % i, dur=20) for i in range(k)], pool=1, jitter=rng.randrange(1, 1 << 30), label="pool1")
         for i in range(k):
-            apply_outcome(sp, i, rng.choice(["ok", "fail", "missing", "err1k"]))
+            apply_outcome(sp, i, rng.choice(["ok", "fail", "missing", "err1k"] + (["thorerr"] if env.p14b_fixed else [])))
         out.append(sp)
     n = 0
     while n < (35 if tier == "quick" else 400):
@@ -102,16 +113,15 @@ def run(chk, replay=None):
     with S.Env() as env:
         S.table_obligations(chk, env)
         chk.proof()
-        S.probe_p13(env)
+        S.probe_switches(chk, env)
         specs = ([replay["input"]] if "input" in replay else []) if replay else cases(chk, env)
         stats, rrs, infos, specs = S.drive(chk, env, "C11", specs, nontrivial, max_reports=6)
         chk.cov["distribution"] = stats
-        chk.cov["p13_repaired_in_tree"] = env.p13_fixed
         for sp in specs[:2] + specs[-2:]:
             chk.sample(json.dumps(S.strip_spec(sp))[:400])
     chk.cov["rule"] = ("one evaluation = one real `xvc pipeline run`, trace replayed through the extracted model, judged: process exits (a hang needs the model's stuck certificate), every step thread "
-                       "ends after a terminal state, every step has a terminal bulletin state. Cases: corpus (P12, P14 witnesses first; open P13 / P13b / P14b witnesses); all DAGs on <= %d steps x sampled "
-                       "outcome assignments from {ok, exit 1, missing dependency file, 70 kB on stdout, 1 kB on stderr} x pool 1/2 x always/never on a step; joins of 2-3 dependencies with every mix of "
+                       "ends after a terminal state, every step has a terminal bulletin state. Repair switches P13 / P14b / P16 of the model are decided by probes of the binary under test. Cases: corpus (P12, P13, P13b, P14, P14b witnesses first); all DAGs on <= %d steps x sampled "
+                       "outcome assignments from {ok, exit 1, missing dependency file, 70 kB on stdout, 1 kB on stderr; on a tree with the P14b repair also: --lines / --regex on a missing file} x pool 1/2 x always/never on a step; joins of 2-3 dependencies with every mix of "
                        "ok / failed / uncheckable x by_dependencies/always; pool 1 with failing steps; random 4-6-step graphs with file/glob edges. non-trivial = has an edge and a non-ok outcome, a large "
                        "output or fewer slots than steps; distinct by spec" % (3 if chk.tier == "quick" else 4))
     chk.cov["exhaustive"] = False
